@@ -8,7 +8,10 @@ META = {
         "everything else rebuilt unchanged) and raises nothing; fold step functions proved over the "
         "integers; fold = len/sum/max0/min0 is a Lean lemma. A bounded contract check on the real "
         "code (185 expressions x 35 integer data sets) runs alongside as cross-check of the models.",
-        "level_note": "Trusted: the NodeTransformer dispatch/generic_visit model, CPython's parser "
+        "level_note": "Trusted: the library's NodeTransformer dispatch/generic_visit model (that "
+        "the class defines no dispatcher of its own is an obligation), that ONE transformer object "
+        "keeps no state between trees is observed bounded (one object over the whole batch); "
+        "CPython's parser "
         "for the four literal lambda strings, the visitor-induction rule, z3, the engine's own VC "
         "generator. Calls with keyword or starred arguments count as `another argument count` (a defect that dropped them was repaired, 6dc85bd; the earlier domain restriction agg_kwfree is gone).",
         "technique": "contract-based deductive verification (self-generated VCs from the real source, z3) + Lean lemma for the folds; bounded contract check as labelled stand-in",
@@ -136,13 +139,15 @@ META["C18"] = {
     "argument_stack (call_stack.py: __init__, push/pop, define_name, lookup_name; list of "
     "dictionaries in term view, class invariant, ten list lemmas) and stack_frame (the real "
     "__enter__/__exit__ run at every `with`) are now PROVED, no longer assumed. The NodeTransformer "
-    "dispatch model, z3 and the VC generator are trusted.",
+    "dispatch model is trusted only for classes that define no visit / generic_visit of their own "
+    "(an obligation per method: a dispatcher defined in the class needs its own contract); z3 and "
+    "the VC generator are trusted.",
     "technique": "contract-based deductive verification by visitor induction: sidecar contracts on 30 functions of function_simplifier.py, safety obligation for every partial operation, discharged with z3; totality incl. termination observed by a bounded contract check",
     "p_keys": True,
     "p_timeout": 900,
     "explanation": "Shape-safety induction over the simplifier proved except for visit_Lambda (assumed); termination bounded.",
     "assumptions": ["termination observed within 5 s per input only",
-                    "visit_Lambda, make_args_unique, arg_name, argument_stack: contracts assumed (trusted)",
+                    "simplify_chained_calls.visit_Lambda: contract assumed (trusted); make_args_unique's returned tree shares no node with its argument (fresh_trusted)",
                     "generic_visit preserves query shape (assumed)"],
 }
 
